@@ -172,7 +172,20 @@ func c01Writers() []c01Writer {
 					}
 				}
 			} else {
-				for _, b := range blks {
+				for i, b := range blks {
+					if len(blks) >= 2 && len(blks)%3 == 0 && i == len(blks)/2 {
+						// the session is interrupted (Finalize, or Discard) and resumed halfway: the round trip is the same
+						if len(blks)%2 == 0 {
+							if err := bs.Finalize(); err != nil {
+								return nil, err
+							}
+						} else {
+							bs.Discard()
+						}
+						if bs, err = blockstore.OpenReadWrite(p, roots, cfg.Opts()...); err != nil {
+							return nil, err
+						}
+					}
 					if err := bs.Put(bg, lab.ToBlock(b)); err != nil {
 						return nil, err
 					}
